@@ -1,15 +1,16 @@
 (* C03 — the parsed tree is the tree the SQL grammar prescribes.
 
-   FULL statement (what the property asks for the expression level): for EVERY reference expression
-   (ref_expr e = true), every parenthesisation r, every admissible follow token list, within the depth limit:
-     parse_expression md no_defects fuel d (render 0 r e ++ stop) = Val (ast_of e, stop).
-   PROVED below: the same statement for the sub-surface [proved e = true] (identifiers, qualified
-   identifiers, all literals, placeholders, every binary operator of the ladder, NOT, IS [NOT] NULL,
-   [NOT] BETWEEN, [NOT] LIKE / ILIKE, [NOT] IN (list), e::type and CAST(e AS type) with a plain type name, any
-   parentheses).  Omitted productions (covered by the model-vs-code correspondence and by the prescribed-tree
-   oracle, see design/C03.md): function calls, CASE, tuples, type names with arguments.
-   Statement-level theorems (parse_render_select ...) do not exist yet: SELECT / DML / DDL are covered by the
-   prescribed-tree oracle only. *)
+   FULL statement (what the property asks): for EVERY statement of the documented surface, every parenthesisation that
+   preserves the model tree, the tree returned by the parser is the prescribed one and the statement is not rejected.
+   PROVED below, about the Gallina models of parseExpression (Model/ExprParse.v) and parseStatement (Model/StmtParse.v),
+   which are tied to the code on every run by the model-vs-code correspondence:
+     - C03_parse_render_expr_ext      every reference expression of Spec/RefGrammar.v (the whole of [mexpr]);
+     - C03_parse_render_expr_partial  the earlier statement for the sub-surface [proved] (kept for C06);
+     - C03_parse_render_select_partial, C03_parse_render_stmt_partial   every reference SELECT / statement of Spec/RefStmt.v;
+     - C03_refuted_*                  the statements are false with a defect switch on (witnesses).
+   `_partial` = the reference grammars do not contain the whole documented surface; the omitted constructs are listed at
+   each theorem and in design/C03.md; they are covered by the prescribed-tree oracle (and, where modelled, by the
+   correspondence) only. *)
 From Coq Require Import List String Arith.
 From GV Require Import Spec.RefGrammar Spec.RefStmt Model.Expr Model.ExprParse Model.StmtParse Proofs.ExprParseP Proofs.ExprParseExtP Proofs.StmtParseP.
 Import ListNotations.
